@@ -123,6 +123,35 @@ def poll (T : Table) (conf : String → TaskConf) (s : Sys) (n : Nat) (rid : Opt
     let (s2, ok2) := rerouteAll T rid now s1 (dedup rer)
     (s2, if ok2 then .ok claimed else .raised claimed)
 
+/-- `get_blocking_invocations_to_run`: the ids `get_blocking_invocations(n)` answered (a parameter here: C09 says which ids
+    these are), one at a time: skipped when PENDING is not a legal next status, skipped — status untouched, message left
+    where it is — when concurrency control blocks it, otherwise claimed; a refused PENDING write is logged and skipped -/
+def blockingLoop (T : Table) (conf : String → TaskConf) (rid : Option String) (now : Int) :
+    Sys → List String → List String → Sys × List String × Bool
+  | s, [], claimed => (s, claimed, true)
+  | s, i :: rest, claimed =>
+    match s.orch.get i, s.orch.info.get? i with
+    | some r, some inf =>
+      if !(T (some r.status)).allowed.contains .pending then blockingLoop T conf rid now s rest claimed
+      else if !(authorized s.orch (conf inf.task) inf [.pending, .running]) then blockingLoop T conf rid now s rest claimed
+      else
+        match s.orch.setStatus T i .pending rid now with
+        | (o2, .ok _) => blockingLoop T conf rid now { s with orch := o2 } rest (claimed ++ [i])
+        | (_, .error _) => blockingLoop T conf rid now s rest claimed
+    | _, _ => (s, claimed, false)                                -- unknown id: KeyError escapes
+
+/-- `get_invocations_to_run(n)`: the blocking invocations first, the queue for the slots that are left -/
+def pollB (T : Table) (conf : String → TaskConf) (s : Sys) (n : Nat) (rid : Option String) (now : Int)
+    (bs : List String) : Sys × PollOut :=
+  let (s0, bclaimed, ok0) := blockingLoop T conf rid now s bs []
+  if !ok0 then (s0, .raised bclaimed)
+  else
+    let (s1, claimed, rer, ok) := pollLoop T conf rid now s0.queue.length (n - bclaimed.length) s0 bclaimed []
+    if !ok then (s1, .raised claimed)
+    else
+      let (s2, ok2) := rerouteAll T rid now s1 (dedup rer)
+      (s2, if ok2 then .ok claimed else .raised claimed)
+
 /-- worker `run` up to the RUNNING transition: authorisation check, reroute when blocked, request RUNNING -/
 def startRun (T : Table) (conf : String → TaskConf) (s : Sys) (i : String) (rid : Option String) (now : Int) : Sys × Bool :=
   match s.orch.info.get? i with
